@@ -6,6 +6,7 @@ regenerated table of error-construction sites.
 -/
 import OtpVerif.Props.C06
 import OtpVerif.Props.C04
+import OtpVerif.Gen.Sites
 
 namespace OtpVerif.Props.C13
 open OtpVerif OtpVerif.Model OtpVerif.Lemmas
@@ -111,9 +112,19 @@ theorem C13_generate_total (O : HashOracle) (s : Bytes) (c : Nat) (p : Option Pa
     · exact Or.inr (derive_unsupported O key c _ _ h)
     · exact Or.inl ⟨_, Props.C01.C01_derive_eq_rfc O key c _ _ (by omega) (by omega) (by omega)⟩
 
+/-- C13 (b), regenerated from go/ssa (library native + js/wasm, wasm binding, REST layer): no `errors.New` /
+`fmt.Errorf` site has an argument derived from the secret text, the decoded key, or an HMAC output (the
+expected code); the sentinel errors are argument-free literals.  (Error results of `encoding/*` decoders
+carry a position or one input byte – a stdlib summary, trusted; error texts are also checked dynamically
+against the secret / key / accepted codes on every failing op of the correspondence run.) -/
+theorem C13_noleak_sites : Gen.errSites.all (fun s => !s.argS && !s.argH) = true := by decide
+
+example : Gen.errSites.length ≥ 30 := by decide +kernel
+
 end OtpVerif.Props.C13
 
 #print axioms OtpVerif.Props.C13.C13_hotp
 #print axioms OtpVerif.Props.C13.C13_totp
 #print axioms OtpVerif.Props.C13.C13_ocra
 #print axioms OtpVerif.Props.C13.C13_generate_total
+#print axioms OtpVerif.Props.C13.C13_noleak_sites
